@@ -217,6 +217,15 @@ fn run_history(front: Front, reg: regions::Reg, start: u32, steps: &[Step], faul
             continue;
         };
         col.event("uplinks_decoded");
+        // the same full counter must also be the one the payload was encrypted with
+        let want = [*step as u8, 0xC0, (*step * 7) as u8];
+        if u.plain != want {
+            col.violation(
+                &format!("C06|payload-not-encrypted-under-the-mic-counter|{}|start={}", front.name(), start_class(start)),
+                "the MIC verifies under a full counter under which the FRMPayload does not decrypt to what was sent",
+                ctx(json!({"frame": hex(bytes), "counter": u.fcnt, "decrypted": hex(&u.plain), "sent": hex(&want)})),
+            );
+        }
         if let Some((pc, pb)) = &prev {
             if pc >> 16 != u.fcnt >> 16 {
                 col.event("counter_crossed_16bit");
